@@ -66,42 +66,73 @@ class E:
         self.kids = list(kids)
 
     def ser(self, rng=None):
-        items = list(self.attrs.items())
-        if rng is not None and len(items) > 1 and rng.random() < 0.5:
-            rng.shuffle(items)
-        a = "".join(' %s="%s"' % (k, esc_attr(v)) for k, v in items)
-        if not self.kids:
-            if rng is not None and rng.random() < 0.3:
-                return "<%s%s></%s>" % (self.name, a, self.name)
-            return "<%s%s/>" % (self.name, a)
-        parts = []
-        only_elems = all(isinstance(k, E) for k in self.kids)
-        for k in self.kids:
-            if isinstance(k, E):
-                if only_elems and rng is not None and rng.random() < 0.15:
-                    parts.append(rng.choice(["\n", " ", "\n  ", "\t"]))
-                parts.append(k.ser(rng))
-            else:
-                parts.append(esc_text(k))
-        return "<%s%s>%s</%s>" % (self.name, a, "".join(parts), self.name)
+        """Serialise (iteratively: documents may be nested very deeply)."""
+        out = []
+        stack = [self]
+        while stack:
+            x = stack.pop()
+            if isinstance(x, str):
+                out.append(x)
+                continue
+            items = list(x.attrs.items())
+            if rng is not None and len(items) > 1 and rng.random() < 0.5:
+                rng.shuffle(items)
+            a = "".join(' %s="%s"' % (k, esc_attr(v)) for k, v in items)
+            if not x.kids:
+                if rng is not None and rng.random() < 0.3:
+                    out.append("<%s%s></%s>" % (x.name, a, x.name))
+                else:
+                    out.append("<%s%s/>" % (x.name, a))
+                continue
+            out.append("<%s%s>" % (x.name, a))
+            parts = []
+            only_elems = all(isinstance(k, E) for k in x.kids)
+            for k in x.kids:
+                if isinstance(k, E):
+                    if only_elems and rng is not None and rng.random() < 0.15:
+                        parts.append(rng.choice(["\n", " ", "\n  ", "\t"]))
+                    parts.append(k)
+                else:
+                    parts.append(esc_text(k))
+            parts.append("</%s>" % x.name)
+            stack.extend(reversed(parts))
+        return "".join(out)
 
     def copy(self):
-        return E(self.name, self.attrs,
-                 [k.copy() if isinstance(k, E) else k for k in self.kids])
+        root = E(self.name, self.attrs)
+        stack = [(self, root)]
+        while stack:
+            src, dst = stack.pop()
+            for k in src.kids:
+                if isinstance(k, E):
+                    c = E(k.name, k.attrs)
+                    dst.kids.append(c)
+                    stack.append((k, c))
+                else:
+                    dst.kids.append(k)
+        return root
 
     def walk(self):
-        """Yield every element (pre-order)."""
-        yield self
-        for k in self.kids:
-            if isinstance(k, E):
-                yield from k.walk()
+        """Every element (pre-order)."""
+        out = []
+        stack = [self]
+        while stack:
+            x = stack.pop()
+            out.append(x)
+            stack.extend(reversed([k for k in x.kids if isinstance(k, E)]))
+        return out
 
     def walk_parents(self):
-        """Yield (parent, index, element) for every non-root element."""
-        for i, k in enumerate(self.kids):
-            if isinstance(k, E):
-                yield (self, i, k)
-                yield from k.walk_parents()
+        """(parent, index, element) for every non-root element."""
+        out = []
+        stack = [self]
+        while stack:
+            x = stack.pop()
+            for i, k in enumerate(x.kids):
+                if isinstance(k, E):
+                    out.append((x, i, k))
+                    stack.append(k)
+        return out
 
     def find(self, *names):
         return [e for e in self.walk() if e.name in names]
@@ -219,7 +250,7 @@ class Gen:
             return E("KEYVALUE", {"VALUETYPE": "string", "TYPE": "datetime"},
                      [rng.choice(DT_POOL)])
         if r < 0.9 and depth < 2:
-            return self.value_reference(depth + 1)
+            return self.value_reference(depth + 1, inst_only=True)
         return E("KEYVALUE", {"TYPE": ""} if rng.random() < 0.3 else {},
                  ["v%d" % rng.randint(0, 99)])
 
@@ -246,8 +277,10 @@ class Gen:
         return E("LOCALCLASSPATH", None,
                  [self.localnamespacepath(), self.classname()])
 
-    def value_reference(self, depth=0):
+    def value_reference(self, depth=0, inst_only=False):
         r = self.rng.random()
+        if inst_only:
+            r *= 0.75
         if r < 0.4:
             c = self.instancename(depth)
         elif r < 0.6:
@@ -681,6 +714,10 @@ def baseline(shape, wire_name, gen, need_objects=False, eos=None):
                 kids.append(E("IRETURNVALUE", None, objs))
         if shape in PULL_SHAPES:
             pv = pull_params(gen, eos=eos, ctx=rng.random() < 0.7)
+            if wire_name == "OpenQueryInstances":
+                pv.insert(rng.randint(0, len(pv)),
+                          E("PARAMVALUE", {"NAME": "QueryResultClass"},
+                            [gen.klass()]))
             if rng.random() < 0.2:
                 kids = pv + kids
             else:
@@ -699,19 +736,27 @@ def baseline(shape, wire_name, gen, need_objects=False, eos=None):
 # Part 2: defects
 # ---------------------------------------------------------------------------
 
-INST_SITES = ["prop", "proparr", "qual", "qualarr", "emb", "key", "keyuntyped"]
-CLASS_SITES = INST_SITES + ["paramarr", "paramrefarr", "param"]
+INST_SITES = ["prop", "proparr", "qual", "qualarr", "emb", "key", "keyuntyped",
+              "obj", "ref"]
+CLASS_SITES = INST_SITES + ["paramarr", "paramrefarr", "param", "cls",
+                            "method"]
+PATH_SITES = ["key", "keyuntyped", "ref"]
 SHAPE_SITES = {
-    "void": [], "export": [], "classnames": [], "paths_c": [],
-    "inst": INST_SITES, "namedinsts": INST_SITES, "objs_i": INST_SITES,
-    "queryobjs": INST_SITES, "pull_inst": INST_SITES,
+    "void": [], "export": [], "classnames": [], "paths_c": ["path"],
+    "inst": INST_SITES, "namedinsts": INST_SITES,
+    "objs_i": INST_SITES + ["path"],
+    "queryobjs": INST_SITES, "pull_inst": INST_SITES + ["path"],
     "pull_query": INST_SITES,
-    "instname": ["key", "keyuntyped"], "instnames": ["key", "keyuntyped"],
-    "paths_i": ["key", "keyuntyped"], "pull_path": ["key", "keyuntyped"],
-    "class": CLASS_SITES, "classes": CLASS_SITES, "objs_c": CLASS_SITES,
+    "instname": PATH_SITES, "instnames": PATH_SITES,
+    "paths_i": PATH_SITES + ["path"], "pull_path": PATH_SITES + ["path"],
+    "class": CLASS_SITES, "classes": CLASS_SITES,
+    "objs_c": CLASS_SITES + ["path"],
     "qualdecl": ["qdval", "qdarr"], "qualdecls": ["qdval", "qdarr"],
-    "method": ["retval", "outparam", "outparamarr"] + INST_SITES,
+    "method": ["retval", "outparam", "outparamarr", "refarr"] + INST_SITES,
 }
+# an ERROR element can carry INSTANCE children: with an error-stage defect in
+# the cell these sites exist for every shape
+ERROR_SITES = INST_SITES
 
 NUM_CLS = ["dec", "neg", "hex", "inf", "ninf", "nan", "e999", "oor", "empty",
            "ws", "frac", "alpha", "plus", "usc", "udig", "long", "junk"]
@@ -754,7 +799,7 @@ def num_text(ty, cls, rng):
     if cls == "long":
         return rng.choice(["9" * 5000, "1" + "0" * 4400, "0" * 4500 + "1"])
     if cls == "junk":
-        return rng.choice(["5 x", "5;", "1,000", "1 2", "5\x0b"])
+        return rng.choice(["5 x", "5;", "1,000", "1 2", "5\u00a0"])
     raise AssertionError(cls)
 
 
@@ -870,7 +915,9 @@ class Ctx:
         if site == "prop":
             a = tyattr({"NAME": g.uniq("Pz")})
             kid = E("VALUE.NULL") if null else V(text)
-            self.add_prop(self.host_obj(), E("PROPERTY", a, [kid]))
+            el = E("PROPERTY", a, [kid])
+            self.add_prop(self.host_obj(), el)
+            return el
         elif site == "proparr":
             a = tyattr({"NAME": g.uniq("Pz")})
             vals = [V(g.good_text(ty if ty in NUM_TYPES + ["string", "boolean",
@@ -879,9 +926,9 @@ class Ctx:
                     for _ in range(self.rng.randint(0, 2))]
             vals.insert(self.rng.randint(0, len(vals)),
                         E("VALUE.NULL") if null else V(text))
-            self.add_prop(self.host_obj(),
-                          E("PROPERTY.ARRAY", a,
-                            [E("VALUE.ARRAY", None, vals)]))
+            el = E("PROPERTY.ARRAY", a, [E("VALUE.ARRAY", None, vals)])
+            self.add_prop(self.host_obj(), el)
+            return el
         elif site in ("qual", "qualarr"):
             a = tyattr({"NAME": g.uniq("Qz")})
             if site == "qual":
@@ -892,7 +939,9 @@ class Ctx:
                 vals.insert(self.rng.randint(0, len(vals)),
                             E("VALUE.NULL") if null else V(text))
                 kid = E("VALUE.ARRAY", None, vals)
-            self.host_qualified().kids.insert(0, E("QUALIFIER", a, [kid]))
+            el = E("QUALIFIER", a, [kid])
+            self.host_qualified().kids.insert(0, el)
+            return el
         elif site in ("key", "keyuntyped"):
             a = {"VALUETYPE": "numeric" if (ty in NUM_TYPES or ty is None)
                  else ("boolean" if ty == "boolean" else "string")}
@@ -922,6 +971,7 @@ class Ctx:
                 qd.attrs["ISARRAY"] = "true"
                 vals = [E("VALUE.NULL") if null else V(text)]
                 qd.kids.append(E("VALUE.ARRAY", None, vals))
+            return qd
         elif site == "retval":
             r = self.resp()
             if r.name != "METHODRESPONSE":
@@ -929,8 +979,9 @@ class Ctx:
             r.kids = [k for k in r.kids if not (isinstance(k, E) and
                                                 k.name == "RETURNVALUE")]
             a = tyattr({}, "PARAMTYPE")
-            r.kids.insert(0, E("RETURNVALUE", a,
-                               [E("VALUE.NULL") if null else V(text)]))
+            el = E("RETURNVALUE", a, [E("VALUE.NULL") if null else V(text)])
+            r.kids.insert(0, el)
+            return el
         elif site in ("outparam", "outparamarr"):
             r = self.resp()
             if r.name != "METHODRESPONSE":
@@ -945,7 +996,9 @@ class Ctx:
                 vals.insert(self.rng.randint(0, len(vals)),
                             E("VALUE.NULL") if null else V(text))
                 kid = E("VALUE.ARRAY", None, vals)
-            r.kids.append(E("PARAMVALUE", a, [kid]))
+            el = E("PARAMVALUE", a, [kid])
+            r.kids.append(el)
+            return el
         elif site == "emb":
             a = tyattr({"NAME": g.uniq("Pe")})
             inner = E("INSTANCE", {"CLASSNAME": g.cls()},
@@ -963,10 +1016,10 @@ class Ctx:
 KINDS = {}       # kind -> dict(stage, fn, sites, tys, clss, shapes)
 
 
-def kind(name, stage, sites=None, tys=None, clss=None, shapes=None):
+def kind(name, stage, sites=None, tys=None, clss=None, shapes=None, ok=None):
     def deco(fn):
         KINDS[name] = dict(stage=stage, fn=fn, sites=sites, tys=tys,
-                           clss=clss, shapes=shapes)
+                           clss=clss, shapes=shapes, ok=ok)
         return fn
     return deco
 
@@ -1079,8 +1132,9 @@ def s_err(ctx, d):
     c = d["cls"]
     ctx.status = int(c)
     ctx.reason = ctx.rng.choice(["Some Reason", "", "Fehler ä"])
-    if c == "301":
-        pass  # no Location header: requests does not follow
+    if c in ("204", "304", "100"):
+        ctx.raw_body = b""      # these statuses cannot carry content
+    # 301 without Location header: requests does not follow
 
 
 @kind("s_cimerror", "status", clss=["plain", "pgdetail", "pgbad", "empty"])
@@ -1155,7 +1209,7 @@ def x_char(ctx, d):
                               "rawlt", "entity", "tworoots", "empty", "ws",
                               "junkafter", "junkbefore", "html", "json", "bin",
                               "cdata", "comment", "declate", "declv2", "pi",
-                              "nsprefix", "quote"])
+                              "quote"])
 def w_form(ctx, d):
     c = d["cls"]
     rng = ctx.rng
@@ -1215,9 +1269,6 @@ def w_form(ctx, d):
         if c == "declv2":
             i = data.find(b"<CIM")
             return b'<?xml version="2.0" encoding="utf-8"?>' + data[i:]
-        if c == "nsprefix":
-            return data.replace(b"<CIM ", b"<x:CIM ", 1).replace(
-                b"</CIM>", b"</x:CIM>")
         raise AssertionError(c)
     ctx.byte_tx.append(tx)
 
@@ -1318,10 +1369,11 @@ def f_tree(ctx, d):
     elif c == "swap":
         ps = [x for x in ctx.tree.walk() if len(x.kids) > 1]
         if not ps:
-            raise NotRenderable("no siblings")
-        x = rng.choice(ps)
-        a, b = rng.sample(range(len(x.kids)), 2)
-        x.kids[a], x.kids[b] = x.kids[b], x.kids[a]
+            p.kids.insert(i, e.copy())
+        else:
+            x = rng.choice(ps)
+            a, b = rng.sample(range(len(x.kids)), 2)
+            x.kids[a], x.kids[b] = x.kids[b], x.kids[a]
     elif c == "text":
         e.kids.insert(rng.randint(0, len(e.kids)), rng.choice(["x", "0", "&"]))
     elif c == "emptyattr":
@@ -1342,7 +1394,7 @@ ENV_CLS = ["root_other", "root_message", "cim_nocimversion",
            "msg_multiexprsp", "rsp_nochild", "rsp_dupchild", "rsp_wrongkind",
            "rsp_unknownchild", "rsp_attr", "name_missing", "name_wrong",
            "name_case", "name_empty", "resp_extraattr", "resp_unknownchild",
-           "resp_text", "lower_names"]
+           "resp_text", "lower_names", "nsprefix"]
 
 
 @kind("e_env", "envelope", clss=ENV_CLS)
@@ -1445,6 +1497,8 @@ def e_env(ctx, d):
     elif c == "lower_names":
         for e in cim.walk():
             e.name = e.name.lower()
+    elif c == "nsprefix":
+        cim.name = "x:CIM"
     else:
         raise AssertionError(c)
 
@@ -1625,37 +1679,34 @@ def v_null(ctx, d):
     ctx.place(d["site"], d["ty"], None, null=True)
 
 
+SHAPE_COMBOS = {
+    "arr_in_scalar": ("prop", "retval"),
+    "scalar_in_arr": ("proparr",),
+    "two_values": ("prop", "proparr", "qual", "qdval", "retval", "outparam"),
+    "nested_value": ("prop", "qual", "outparam"),
+    "ref_in_value": ("prop", "proparr", "qual", "qdval", "outparam"),
+}
+
+
 @kind("v_shape", "value", sites=["prop", "proparr", "qual", "qdval", "retval",
                                  "outparam"],
-      clss=["arr_in_scalar", "scalar_in_arr", "two_values", "nested_value",
-            "ref_in_value"])
+      clss=sorted(SHAPE_COMBOS),
+      ok=lambda d: d["site"] in SHAPE_COMBOS[d["cls"]])
 def v_shape(ctx, d):
     c, s = d["cls"], d["site"]
     ty = ctx.rng.choice(["string", "uint8"])
-    before = set(id(e) for e in ctx.tree.walk())
-    ctx.place(s, ty, "1")
-    new = [e for e in ctx.tree.walk() if id(e) not in before and
-           e.name in ("PROPERTY", "PROPERTY.ARRAY", "QUALIFIER", "RETURNVALUE",
-                      "PARAMVALUE")]
-    if s == "qdval":
-        new = ctx.tree.find("QUALIFIER.DECLARATION")[:1]
-    host = new[0]
+    host = ctx.place(s, ty, "1")
     vi = [i for i, k in enumerate(host.kids) if isinstance(k, E) and
           k.name in ("VALUE", "VALUE.ARRAY")][0]
     v = host.kids[vi]
     if c == "arr_in_scalar":
-        if v.name == "VALUE.ARRAY":
-            raise NotRenderable("already array")
         host.kids[vi] = E("VALUE.ARRAY", None, [v])
     elif c == "scalar_in_arr":
-        if v.name == "VALUE":
-            raise NotRenderable("already scalar")
         host.kids[vi] = V("1")
     elif c == "two_values":
         host.kids.insert(vi, v.copy())
     elif c == "nested_value":
-        tgt = v if v.name == "VALUE" else v.kids[0]
-        tgt.kids = [V("1")]
+        v.kids = [V("1")]
     elif c == "ref_in_value":
         host.kids[vi] = ctx.gen.value_reference()
 
@@ -1737,7 +1788,7 @@ BATTRS = ["PROPAGATED", "OVERRIDABLE", "TOSUBCLASS", "TOINSTANCE",
           "TRANSLATABLE", "ISARRAY", "SCOPE"]
 
 
-@kind("v_battr", "value", sites=["prop", "qual", "qdval", "method"],
+@kind("v_battr", "value", sites=["prop", "qual", "qdval", "method"],  # noqa
       clss=["bad", "empty", "upper", "ws"])
 def v_battr(ctx, d):
     s = d["site"]
@@ -1817,10 +1868,15 @@ NAME_CLS = ["propname_empty", "propname_dup", "propname_missing",
             "classname_empty", "classname_missing", "qualname_empty",
             "superclass_empty", "name_odd", "refclass_empty",
             "classorigin_empty", "methname_empty", "paramname_empty",
-            "qualname_dup", "methname_dup", "paramname_dup"]
+            "qualname_dup", "methname_dup", "paramname_dup", "method_child"]
 
 
-@kind("v_name", "value", sites=["obj"], clss=NAME_CLS)
+CLASS_ONLY_NAMES = ("methname_empty", "paramname_empty", "methname_dup",
+                    "paramname_dup", "superclass_empty")
+
+
+@kind("v_name", "value", sites=["obj", "cls"], clss=NAME_CLS,
+      ok=lambda d: (d["cls"] in CLASS_ONLY_NAMES) == (d["site"] == "cls"))
 def v_name(ctx, d):
     c = d["cls"]
     g = ctx.gen
@@ -1848,7 +1904,9 @@ def v_name(ctx, d):
                 m.kids.append(E("PARAMETER", {"NAME": "DP", "TYPE": "string"}))
         return
     o = ctx.host_obj()
-    if c == "propname_empty":
+    if c == "method_child":
+        o.kids.append(g.method())
+    elif c == "propname_empty":
         ctx.add_prop(o, E("PROPERTY", {"NAME": "", "TYPE": "string"}, [V("x")]))
     elif c == "propname_dup":
         ctx.add_prop(o, E("PROPERTY", {"NAME": "Dup", "TYPE": "string"},
@@ -1885,12 +1943,9 @@ def v_name(ctx, d):
 
 @kind("v_meth", "value", sites=["cls"],
       clss=["noret", "ret_empty", "ret_bogus", "ret_reference",
-            "param_in_class", "method_in_instance", "param_value"])
+            "param_in_class", "param_value"])
 def v_meth(ctx, d):
     c = d["cls"]
-    if c == "method_in_instance":
-        ctx.host_obj(("INSTANCE",)).kids.append(ctx.gen.method())
-        return
     k = ctx.host_obj(("CLASS",))
     m = ctx.gen.method()
     if c == "noret":
@@ -2018,9 +2073,10 @@ def o_struct(ctx, d):
         irv.kids = [ctx.gen.irv_elem(k) for k in rng.sample(
             ["INSTANCE", "CLASS", "INSTANCENAME", "CLASSNAME", "VALUE"], 2)]
     elif c == "many":
+        spec = SHAPE_IRV[ctx.shape] or ("INSTANCE", False)
         if irv is None:
-            raise NotRenderable("no IRETURNVALUE")
-        spec = SHAPE_IRV[ctx.shape]
+            irv = E("IRETURNVALUE")
+            r.kids.insert(0, irv)
         irv.kids = [ctx.gen.irv_elem(spec[0]) for _ in range(rng.randint(2, 4))]
     elif c == "paramvalue":
         r.kids.append(E("PARAMVALUE", {"NAME": rng.choice(
@@ -2049,8 +2105,9 @@ def p_eos(ctx, d):
     c = d["cls"]
     r = ctx.resp()
     rng = ctx.rng
-    r.kids = [k for k in r.kids if not (isinstance(k, E) and
-                                        k.name == "PARAMVALUE")]
+    r.kids = [k for k in r.kids if not (
+        isinstance(k, E) and k.name == "PARAMVALUE" and
+        k.attrs.get("NAME") in ("EndOfSequence", "EnumerationContext"))]
 
     def pv(name, kid, ty=None):
         a = {"NAME": name}
@@ -2104,8 +2161,9 @@ def p_ctx(ctx, d):
     c = d["cls"]
     r = ctx.resp()
     rng = ctx.rng
-    r.kids = [k for k in r.kids if not (isinstance(k, E) and
-                                        k.name == "PARAMVALUE")]
+    r.kids = [k for k in r.kids if not (
+        isinstance(k, E) and k.name == "PARAMVALUE" and
+        k.attrs.get("NAME") in ("EndOfSequence", "EnumerationContext"))]
     eos = E("PARAMVALUE", {"NAME": "EndOfSequence", "PARAMTYPE": "boolean"},
             [V(rng.choice(["FALSE", "FALSE", "TRUE"]))])
 
@@ -2259,3 +2317,569 @@ def m_misc(ctx, d):
     elif c == "out_str_for_num":
         r.kids.append(out({"PARAMTYPE": rng.choice(NUM_TYPES)},
                           V(rng.choice(["abc", "", " "]))))
+
+
+# ---------------------------------------------------------------------------
+# Part 3: rendering a cell, transport adapter, operations
+# ---------------------------------------------------------------------------
+
+LEVEL = {"error": 0, "optype": 1, "value": 2, "envelope": 3}
+TREE_KINDS_LAST = ("f_tree",)
+BYTE_STAGES = ("utf8", "xml")
+HTTP_STAGES = ("ctype", "status", "transport")
+
+
+def defect_ok(shape, d, has_error=False):
+    """Is defect record d (k, site, ty, cls) meaningful for the shape?  This
+    is the python twin of RespPipeline!Applicable; the check cross-checks the
+    two through the cells TLC emits."""
+    info = KINDS.get(d["k"])
+    if info is None:
+        return False
+    if info["shapes"] is not None and shape not in info["shapes"]:
+        return False
+    if info["sites"] is not None:
+        if d["site"] not in info["sites"]:
+            return False
+        avail = set(SHAPE_SITES[shape])
+        if has_error:
+            avail |= set(ERROR_SITES)
+        if d["site"] not in avail:
+            return False
+    elif d["site"] != "":
+        return False
+    if info["tys"] is not None:
+        if d["ty"] not in info["tys"]:
+            return False
+    elif d["ty"] != "":
+        return False
+    if info["clss"] is not None:
+        if d["cls"] not in info["clss"]:
+            return False
+    elif d["cls"] != "":
+        return False
+    if d["k"] in ("o_irv", "o_struct") and shape in ("method", "export"):
+        return False
+    if info["ok"] is not None and not info["ok"](d):
+        return False
+    return True
+
+
+class Resp:
+    __slots__ = ("status", "reason", "headers", "body", "exc", "body_reader",
+                 "redirect")
+
+    def __init__(self, status=200, reason="OK", headers=None, body=b"",
+                 exc=None, body_reader=None, redirect=None):
+        self.status = status
+        self.reason = reason
+        self.headers = headers or []
+        self.body = body
+        self.exc = exc
+        self.body_reader = body_reader
+        self.redirect = redirect
+
+    def describe(self, maxlen=4000):
+        return {"status": self.status, "reason": self.reason,
+                "headers": [list(h) for h in self.headers],
+                "exc": repr(self.exc) if self.exc is not None else None,
+                "body_reader": self.body_reader is not None,
+                "body_latin1": self.body[:maxlen].decode("latin-1"),
+                "body_len": len(self.body)}
+
+
+def good_headers(rng):
+    ct = rng.choice(['application/xml; charset="utf-8"',
+                     "application/xml; charset=utf-8", "application/xml",
+                     'text/xml; charset="utf-8"', "text/xml"])
+    h = [(rng.choice(["Content-Type", "Content-type", "content-type"]), ct),
+         ("CIMOperation", "MethodResponse")]
+    if rng.random() < 0.3:
+        h.append(("Cache-Control", "no-cache"))
+    rng.shuffle(h)
+    return h
+
+
+def serialise(tree, rng, decl=True):
+    d = rng.choice(['<?xml version="1.0" encoding="utf-8" ?>\n',
+                    "<?xml version='1.0' encoding='UTF-8'?>",
+                    '<?xml version="1.0"?>\n', ""]) if decl else ""
+    return (d + tree.ser(rng) + rng.choice(["", "\n", "\r\n"])).encode("utf-8")
+
+
+def render(shape, wire, defects, rng, eos=None):
+    """Concrete HTTP response for an abstract cell."""
+    gen = Gen(rng)
+    need = any(d["site"] or d["k"] in ("f_tree",) for d in defects)
+    tree = baseline(shape, wire, gen, need_objects=need, eos=eos)
+    ctx = Ctx(shape, wire, rng, tree, gen)
+    ctx.headers = good_headers(rng)
+    stage = {id(d): KINDS[d["k"]]["stage"] for d in defects}
+
+    def key(d):
+        st = stage[id(d)]
+        if d["k"] in TREE_KINDS_LAST:
+            return 4
+        return LEVEL.get(st, 9)
+    tree_defs = sorted([d for d in defects if stage[id(d)] in LEVEL or
+                        d["k"] in TREE_KINDS_LAST], key=key)
+    for d in tree_defs:
+        KINDS[d["k"]]["fn"](ctx, d)
+    for d in defects:
+        if d in tree_defs:
+            continue
+        KINDS[d["k"]]["fn"](ctx, d)
+    body = serialise(ctx.tree, rng)
+    if ctx.raw_body is not None:
+        body = ctx.raw_body
+    for tx in ctx.byte_tx:
+        body = tx(body)
+    return Resp(ctx.status, ctx.reason, ctx.headers, body, ctx.exc,
+                ctx.body_reader, ctx.redirect)
+
+
+WIRE_SHAPE = {
+    "EnumerateInstances": "namedinsts", "EnumerateInstanceNames": "instnames",
+    "GetInstance": "inst", "ModifyInstance": "void",
+    "CreateInstance": "instname", "DeleteInstance": "void",
+    "ExecQuery": "queryobjs",
+    "OpenEnumerateInstances": "pull_inst",
+    "OpenEnumerateInstancePaths": "pull_path",
+    "OpenAssociatorInstances": "pull_inst",
+    "OpenAssociatorInstancePaths": "pull_path",
+    "OpenReferenceInstances": "pull_inst",
+    "OpenReferenceInstancePaths": "pull_path",
+    "OpenQueryInstances": "pull_query",
+    "PullInstancesWithPath": "pull_inst", "PullInstancePaths": "pull_path",
+    "PullInstances": "pull_query", "CloseEnumeration": "void",
+    "EnumerateClasses": "classes", "EnumerateClassNames": "classnames",
+    "GetClass": "class", "ModifyClass": "void", "CreateClass": "void",
+    "DeleteClass": "void", "EnumerateQualifiers": "qualdecls",
+    "GetQualifier": "qualdecl", "SetQualifier": "void",
+    "DeleteQualifier": "void", "ExportIndication": "export",
+}
+
+
+class ScriptAdapter(BaseAdapter):
+    """Transport adapter answering every request from a script: request
+    number `target` gets the cell's response, every other request a valid
+    response for the operation named in its CIMMethod header."""
+
+    def __init__(self, target_resp, target_idx, rng, first_eos=None,
+                 assoc_level="i"):
+        super().__init__()
+        self.target_resp = target_resp
+        self.target_idx = target_idx
+        self.rng = rng
+        self.first_eos = first_eos
+        self.assoc_level = assoc_level
+        self.n = 0
+        self._h = HTTPAdapter()
+
+    def good(self, request):
+        wire = request.headers.get("CIMMethod") or \
+            request.headers.get("CIMExportMethod") or ""
+        if isinstance(wire, bytes):
+            wire = wire.decode()
+        shape = WIRE_SHAPE.get(wire)
+        if shape is None:
+            if wire in ("Associators", "References"):
+                shape = "objs_" + self.assoc_level
+            elif wire in ("AssociatorNames", "ReferenceNames"):
+                shape = "paths_" + self.assoc_level
+            else:
+                shape = "method"
+        eos = True
+        if self.n < self.target_idx and self.first_eos is not None:
+            eos = self.first_eos
+        return render(shape, wire, [], self.rng, eos=eos)
+
+    def send(self, request, stream=False, timeout=None, verify=True,
+             cert=None, proxies=None):
+        self.n += 1
+        if self.n > 60:
+            raise requests.exceptions.ConnectionError("script exhausted")
+        if self.n == self.target_idx or \
+                (self.target_resp.redirect and self.n > self.target_idx):
+            r = self.target_resp
+        else:
+            r = self.good(request)
+        if r.exc is not None:
+            raise r.exc
+        body = r.body_reader(r.body) if r.body_reader else io.BytesIO(r.body)
+        raw = urllib3.HTTPResponse(
+            body=body, headers=urllib3.HTTPHeaderDict(r.headers),
+            status=r.status, reason=r.reason, preload_content=False,
+            decode_content=False, version=11)
+        return self._h.build_response(request, raw)
+
+    def close(self):
+        pass
+
+
+class Hang(BaseException):
+    pass
+
+
+def _on_alarm(signum, frame):
+    raise Hang()
+
+
+def guarded(fn, limit):
+    """Run fn() under a watchdog; returns ("value", v) / ("error", exc) /
+    ("hang", None)."""
+    old = signal.signal(signal.SIGALRM, _on_alarm)
+    signal.setitimer(signal.ITIMER_REAL, limit)
+    try:
+        try:
+            return ("value", fn())
+        except Hang:
+            return ("hang", None)
+        except Exception as exc:        # noqa: everything is an observation
+            return ("error", exc)
+        except BaseException as exc:    # SystemExit, GeneratorExit, ...
+            if isinstance(exc, KeyboardInterrupt):
+                raise
+            return ("error", exc)
+    finally:
+        signal.setitimer(signal.ITIMER_REAL, 0)
+        signal.signal(signal.SIGALRM, old)
+
+
+# ---------------------------------------------------------------------------
+# Part 4: the public operation methods of WBEMConnection
+# ---------------------------------------------------------------------------
+
+class Op:
+    def __init__(self, name, shape, wire, call, check, label=None,
+                 target_idx=1, pull=False, first_eos=None, assoc_level="i",
+                 consume=None):
+        self.name = name                 # WBEMConnection method
+        self.label = label or name       # method + variant
+        self.shape = shape               # shape of the targeted response
+        self.wire = wire                 # CIMMethod of the targeted request
+        self.call = call                 # (conn, rng) -> result
+        self.check = check               # result -> bool (documented type)
+        self.target_idx = target_idx
+        self.pull = pull                 # use_pull_operations
+        self.first_eos = first_eos
+        self.assoc_level = assoc_level
+
+
+def build_ops():
+    import itertools
+    import pywbem
+    from pywbem import (CIMInstance, CIMInstanceName, CIMClass, CIMClassName,
+                        CIMQualifierDeclaration, CIMType, CIMDateTime, Uint8)
+    from pywbem._nocasedict import NocaseDict
+
+    def ipath(rng):
+        p = CIMInstanceName("CIM_Foo", {"k": rng.choice(["v", 1, True])})
+        if rng.random() < 0.4:
+            p.namespace = "root/x"
+        return p
+
+    def cname(rng):
+        r = rng.random()
+        if r < 0.6:
+            return "CIM_Foo"
+        return CIMClassName("CIM_Foo", namespace="root/x" if r < 0.8 else None)
+
+    def inst(rng):
+        i = CIMInstance("CIM_Foo", {"k": "v", "n": Uint8(1)})
+        i.path = CIMInstanceName("CIM_Foo", {"k": "v"})
+        return i
+
+    def islist(t):
+        return lambda r: isinstance(r, list) and all(isinstance(x, t)
+                                                     for x in r)
+
+    def isa(t):
+        return lambda r: isinstance(r, t)
+
+    def isnone(r):
+        return r is None
+
+    def cls_tuples(r):
+        return isinstance(r, list) and all(
+            isinstance(x, tuple) and len(x) == 2 and
+            isinstance(x[0], CIMClassName) and isinstance(x[1], CIMClass)
+            for x in r)
+
+    def cimval(v):
+        if v is None:
+            return True
+        if isinstance(v, list):
+            return all(cimval(x) for x in v)
+        return isinstance(v, (CIMType, str, bool, CIMInstanceName,
+                              CIMClassName, CIMInstance, CIMClass))
+
+    def method_result(r):
+        return (isinstance(r, tuple) and len(r) == 2 and cimval(r[0]) and
+                not isinstance(r[0], list) and
+                isinstance(r[1], NocaseDict) and
+                all(isinstance(k, str) and cimval(v)
+                    for k, v in r[1].items()))
+
+    def ctx_ok(c, eos):
+        if c is None:
+            return bool(eos)
+        return (isinstance(c, tuple) and len(c) == 2 and
+                isinstance(c[0], str) and isinstance(c[1], str))
+
+    def pull_result(elem, field, query=False):
+        def chk(r):
+            if not isinstance(r, tuple) or not hasattr(r, "eos"):
+                return False
+            objs = getattr(r, field, None)
+            if not (isinstance(objs, list) and
+                    all(isinstance(x, elem) for x in objs)):
+                return False
+            if not isinstance(r.eos, bool) or not ctx_ok(r.context, r.eos):
+                return False
+            if query and not (r.query_result_class is None or
+                              isinstance(r.query_result_class, CIMClass)):
+                return False
+            return True
+        return chk
+
+    def consume(gen_):
+        try:
+            return list(itertools.islice(gen_, 200))
+        finally:
+            gen_.close()
+
+    def iter_(meth, *a, **kw):
+        def call(c, rng):
+            return consume(getattr(c, meth)(*[x(rng) if callable(x) else x
+                                              for x in a], **kw))
+        return call
+
+    def iterq(c, rng):
+        r = c.IterQueryInstances("WQL", "select * from CIM_Foo",
+                                 ReturnQueryResultClass=rng.choice(
+                                     [None, None, True]))
+        return (consume(r.generator), r.query_result_class)
+
+    def iterq_fb(c, rng):
+        r = c.IterQueryInstances("WQL", "select * from CIM_Foo")
+        return (consume(r.generator), r.query_result_class)
+
+    def iterq_ok(r):
+        return (isinstance(r, tuple) and islist(CIMInstance)(r[0]) and
+                (r[1] is None or isinstance(r[1], CIMClass)))
+
+    pctx = ("ctx0", "root/cimv2")
+    qd = CIMQualifierDeclaration("Q", "string")
+    kl = CIMClass("CIM_Foo")
+    ops = [
+        Op("EnumerateInstances", "namedinsts", "EnumerateInstances",
+           lambda c, g: c.EnumerateInstances(cname(g)), islist(CIMInstance)),
+        Op("EnumerateInstanceNames", "instnames", "EnumerateInstanceNames",
+           lambda c, g: c.EnumerateInstanceNames(cname(g)),
+           islist(CIMInstanceName)),
+        Op("GetInstance", "inst", "GetInstance",
+           lambda c, g: c.GetInstance(ipath(g)), isa(CIMInstance)),
+        Op("ModifyInstance", "void", "ModifyInstance",
+           lambda c, g: c.ModifyInstance(inst(g)), isnone),
+        Op("CreateInstance", "instname", "CreateInstance",
+           lambda c, g: c.CreateInstance(inst(g)), isa(CIMInstanceName)),
+        Op("DeleteInstance", "void", "DeleteInstance",
+           lambda c, g: c.DeleteInstance(ipath(g)), isnone),
+        Op("Associators", "objs_i", "Associators",
+           lambda c, g: c.Associators(ipath(g)), islist(CIMInstance),
+           label="Associators/inst"),
+        Op("Associators", "objs_c", "Associators",
+           lambda c, g: c.Associators(cname(g)), cls_tuples,
+           label="Associators/class", assoc_level="c"),
+        Op("AssociatorNames", "paths_i", "AssociatorNames",
+           lambda c, g: c.AssociatorNames(ipath(g)), islist(CIMInstanceName),
+           label="AssociatorNames/inst"),
+        Op("AssociatorNames", "paths_c", "AssociatorNames",
+           lambda c, g: c.AssociatorNames(cname(g)), islist(CIMClassName),
+           label="AssociatorNames/class", assoc_level="c"),
+        Op("References", "objs_i", "References",
+           lambda c, g: c.References(ipath(g)), islist(CIMInstance),
+           label="References/inst"),
+        Op("References", "objs_c", "References",
+           lambda c, g: c.References(cname(g)), cls_tuples,
+           label="References/class", assoc_level="c"),
+        Op("ReferenceNames", "paths_i", "ReferenceNames",
+           lambda c, g: c.ReferenceNames(ipath(g)), islist(CIMInstanceName),
+           label="ReferenceNames/inst"),
+        Op("ReferenceNames", "paths_c", "ReferenceNames",
+           lambda c, g: c.ReferenceNames(cname(g)), islist(CIMClassName),
+           label="ReferenceNames/class", assoc_level="c"),
+        Op("InvokeMethod", "method", "Frob",
+           lambda c, g: c.InvokeMethod("Frob", g.choice([cname(g), ipath(g)]),
+                                       [("a", Uint8(1))], b="x"),
+           method_result),
+        Op("ExecQuery", "queryobjs", "ExecQuery",
+           lambda c, g: c.ExecQuery("WQL", "select * from CIM_Foo"),
+           islist(CIMInstance)),
+        Op("OpenEnumerateInstances", "pull_inst", "OpenEnumerateInstances",
+           lambda c, g: c.OpenEnumerateInstances(cname(g), MaxObjectCount=10),
+           pull_result(CIMInstance, "instances")),
+        Op("OpenEnumerateInstancePaths", "pull_path",
+           "OpenEnumerateInstancePaths",
+           lambda c, g: c.OpenEnumerateInstancePaths(cname(g)),
+           pull_result(CIMInstanceName, "paths")),
+        Op("OpenAssociatorInstances", "pull_inst", "OpenAssociatorInstances",
+           lambda c, g: c.OpenAssociatorInstances(ipath(g)),
+           pull_result(CIMInstance, "instances")),
+        Op("OpenAssociatorInstancePaths", "pull_path",
+           "OpenAssociatorInstancePaths",
+           lambda c, g: c.OpenAssociatorInstancePaths(ipath(g)),
+           pull_result(CIMInstanceName, "paths")),
+        Op("OpenReferenceInstances", "pull_inst", "OpenReferenceInstances",
+           lambda c, g: c.OpenReferenceInstances(ipath(g)),
+           pull_result(CIMInstance, "instances")),
+        Op("OpenReferenceInstancePaths", "pull_path",
+           "OpenReferenceInstancePaths",
+           lambda c, g: c.OpenReferenceInstancePaths(ipath(g)),
+           pull_result(CIMInstanceName, "paths")),
+        Op("OpenQueryInstances", "pull_query", "OpenQueryInstances",
+           lambda c, g: c.OpenQueryInstances(
+               "WQL", "select * from CIM_Foo",
+               ReturnQueryResultClass=g.choice([None, False, True])),
+           pull_result(CIMInstance, "instances", query=True)),
+        Op("PullInstancesWithPath", "pull_inst", "PullInstancesWithPath",
+           lambda c, g: c.PullInstancesWithPath(pctx, 10),
+           pull_result(CIMInstance, "instances")),
+        Op("PullInstancePaths", "pull_path", "PullInstancePaths",
+           lambda c, g: c.PullInstancePaths(pctx, 10),
+           pull_result(CIMInstanceName, "paths")),
+        Op("PullInstances", "pull_query", "PullInstances",
+           lambda c, g: c.PullInstances(pctx, 10),
+           pull_result(CIMInstance, "instances")),
+        Op("CloseEnumeration", "void", "CloseEnumeration",
+           lambda c, g: c.CloseEnumeration(pctx), isnone),
+        Op("EnumerateClasses", "classes", "EnumerateClasses",
+           lambda c, g: c.EnumerateClasses(), islist(CIMClass)),
+        Op("EnumerateClassNames", "classnames", "EnumerateClassNames",
+           lambda c, g: c.EnumerateClassNames(), islist(str)),
+        Op("GetClass", "class", "GetClass",
+           lambda c, g: c.GetClass(cname(g)), isa(CIMClass)),
+        Op("ModifyClass", "void", "ModifyClass",
+           lambda c, g: c.ModifyClass(kl), isnone),
+        Op("CreateClass", "void", "CreateClass",
+           lambda c, g: c.CreateClass(kl), isnone),
+        Op("DeleteClass", "void", "DeleteClass",
+           lambda c, g: c.DeleteClass(cname(g)), isnone),
+        Op("EnumerateQualifiers", "qualdecls", "EnumerateQualifiers",
+           lambda c, g: c.EnumerateQualifiers(),
+           islist(CIMQualifierDeclaration)),
+        Op("GetQualifier", "qualdecl", "GetQualifier",
+           lambda c, g: c.GetQualifier("Q"), isa(CIMQualifierDeclaration)),
+        Op("SetQualifier", "void", "SetQualifier",
+           lambda c, g: c.SetQualifier(qd), isnone),
+        Op("DeleteQualifier", "void", "DeleteQualifier",
+           lambda c, g: c.DeleteQualifier("Q"), isnone),
+        Op("ExportIndication", "export", "ExportIndication",
+           lambda c, g: c.ExportIndication(inst(g)), isnone),
+    ]
+    iters = [
+        ("IterEnumerateInstances", cname, "OpenEnumerateInstances",
+         "PullInstancesWithPath", "pull_inst", "EnumerateInstances",
+         "namedinsts", CIMInstance),
+        ("IterEnumerateInstancePaths", cname, "OpenEnumerateInstancePaths",
+         "PullInstancePaths", "pull_path", "EnumerateInstanceNames",
+         "instnames", CIMInstanceName),
+        ("IterAssociatorInstances", ipath, "OpenAssociatorInstances",
+         "PullInstancesWithPath", "pull_inst", "Associators", "objs_i",
+         CIMInstance),
+        ("IterAssociatorInstancePaths", ipath, "OpenAssociatorInstancePaths",
+         "PullInstancePaths", "pull_path", "AssociatorNames", "paths_i",
+         CIMInstanceName),
+        ("IterReferenceInstances", ipath, "OpenReferenceInstances",
+         "PullInstancesWithPath", "pull_inst", "References", "objs_i",
+         CIMInstance),
+        ("IterReferenceInstancePaths", ipath, "OpenReferenceInstancePaths",
+         "PullInstancePaths", "pull_path", "ReferenceNames", "paths_i",
+         CIMInstanceName),
+    ]
+    for meth, arg, wopen, wpull, pshape, wtrad, tshape, elem in iters:
+        ops.append(Op(meth, pshape, wopen, iter_(meth, arg), islist(elem),
+                      label=meth + "/open", pull=True))
+        ops.append(Op(meth, pshape, wpull, iter_(meth, arg), islist(elem),
+                      label=meth + "/pull", pull=True, target_idx=2,
+                      first_eos=False))
+        ops.append(Op(meth, tshape, wtrad, iter_(meth, arg), islist(elem),
+                      label=meth + "/trad", pull=False))
+    ops.append(Op("IterQueryInstances", "pull_query", "OpenQueryInstances",
+                  iterq, iterq_ok, label="IterQueryInstances/open", pull=True))
+    ops.append(Op("IterQueryInstances", "pull_query", "PullInstances",
+                  iterq, iterq_ok, label="IterQueryInstances/pull", pull=True,
+                  target_idx=2, first_eos=False))
+    ops.append(Op("IterQueryInstances", "queryobjs", "ExecQuery",
+                  iterq_fb, iterq_ok, label="IterQueryInstances/trad",
+                  pull=False))
+    return ops
+
+
+def public_operation_methods():
+    """Names of the public WBEMConnection methods that issue requests
+    (upper-case initial by pywbem's convention)."""
+    import inspect
+    import pywbem
+    return sorted(n for n, f in inspect.getmembers(pywbem.WBEMConnection,
+                                                   inspect.isfunction)
+                  if n[0].isupper())
+
+
+PYWBEM_DOCUMENTED = ["CIMError", "CIMXMLParseError", "XMLParseError",
+                     "HeaderParseError", "ParseError", "CIMVersionError",
+                     "DTDVersionError", "ProtocolVersionError", "VersionError",
+                     "HTTPError", "AuthError", "ConnectionError",
+                     "TimeoutError", "ModelError", "Error"]
+
+
+def run_call(op, resp, rng, limit=20.0):
+    """Drive one operation against one scripted response.  Returns the
+    observation dict (the abstract event fields) and a short detail text."""
+    import pywbem
+    conn = pywbem.WBEMConnection("http://srv:5988",
+                                 default_namespace="root/cimv2", timeout=5,
+                                 use_pull_operations=op.pull)
+    ad = ScriptAdapter(resp, op.target_idx, rng, first_eos=op.first_eos,
+                       assoc_level=op.assoc_level)
+    conn.session.mount("http://", ad)
+    conn.session.mount("https://", ad)
+    kind_, val = guarded(lambda: op.call(conn, rng), limit)
+    obs = {"kind": kind_, "cls": "", "pywbem": False, "req": False,
+           "resp": False, "typeok": False, "nreq": ad.n}
+    detail = ""
+    if kind_ == "value":
+        try:
+            obs["typeok"] = bool(op.check(val))
+        except Exception as exc:     # noqa
+            obs["typeok"] = False
+            detail = "type check raised %r" % exc
+        if not obs["typeok"]:
+            detail = "returned %s" % repr(val)[:300]
+    elif kind_ == "error":
+        exc = val
+        obs["pywbem"] = isinstance(exc, pywbem.Error)
+        name = type(exc).__name__
+        if obs["pywbem"]:
+            for k in type(exc).__mro__:
+                if k.__module__ == "pywbem._exceptions":
+                    name = k.__name__
+                    break
+        obs["cls"] = name
+        obs["req"] = getattr(exc, "request_data", None) is not None
+        obs["resp"] = getattr(exc, "response_data", None) is not None
+        import traceback
+        tb = traceback.extract_tb(exc.__traceback__)
+        where = ""
+        for fr in reversed(tb):
+            if "/pywbem/" in fr.filename or "/xml/" in fr.filename:
+                where = "%s:%s:%s" % (fr.filename.split("/")[-1], fr.name,
+                                      (fr.line or "")[:80])
+                break
+        detail = "%s: %s @ %s" % (type(exc).__name__, str(exc)[:200], where)
+    try:
+        conn.close()
+    except Exception:       # noqa
+        pass
+    return obs, detail
